@@ -94,6 +94,18 @@ type WriterSpec struct {
 	Line    int
 }
 
+// ObjInv declares the listed predicates to be the object invariant of a struct type: the type's fields are touched only
+// by its own methods and constructors (checked), every one of those re-establishes the predicates (checked), and
+// therefore code outside the type may rely on them for any object of the type it holds.
+type ObjInv struct {
+	Type  string
+	Preds []string
+	Ctors []string
+	Tags  []string
+	File  string
+	Line  int
+}
+
 // Pred is a named list of clauses (a representation invariant) expanded textually where it is used.
 type Pred struct {
 	Name    string
@@ -118,6 +130,7 @@ type Program struct {
 	LoadErrs  []string
 	Preds     map[string]*Pred
 	Writers   []*WriterSpec
+	ObjInvs   []*ObjInv
 	SerialAudit []string // tags of the package-wide serial-comparison audit
 	typeTags  map[string]int
 	tagTypes  map[int]types.Type
@@ -250,7 +263,7 @@ func (p *Program) parseContractFile(fname string, f *ast.File) error {
 		}
 	}
 	// join continuation lines: a line is a continuation unless it starts with a keyword
-	kw := regexp.MustCompile(`^(func|requires|ensures|assume|modifies|tags|loop|at|inline|trusted|safety|serialaudit|auditserial|interference|noverify|pred|clause|writers|proof)\b`)
+	kw := regexp.MustCompile(`^(func|requires|ensures|assume|modifies|tags|loop|at|inline|trusted|safety|serialaudit|auditserial|interference|noverify|pred|clause|writers|proof|objinv)\b`)
 	var joined []line
 	for _, l := range lines {
 		if kw.MatchString(l.text) || len(joined) == 0 {
@@ -280,6 +293,22 @@ func (p *Program) parseContractFile(fname string, f *ast.File) error {
 					p.SerialAudit = append(p.SerialAudit, t)
 				}
 			}
+			continue
+		}
+		if head == "objinv" {
+			// objinv{TAGS} Type : pred1 pred2 ; constructors f1 f2
+			m := regexp.MustCompile(`^objinv(\{[A-Z0-9, ]+\})?\s+(\w+)\s*:\s*([\w ]+);\s*constructors\s+([\w. ]+)$`).FindStringSubmatch(l.text)
+			if m == nil {
+				return bad("objinv{TAGS} Type : pred... ; constructors f...")
+			}
+			oi := &ObjInv{Type: m[2], Preds: strings.Fields(m[3]), Ctors: strings.Fields(m[4]), File: fname, Line: l.ln}
+			for _, t := range strings.Split(strings.Trim(m[1], "{}"), ",") {
+				if t = strings.TrimSpace(t); t != "" {
+					oi.Tags = append(oi.Tags, t)
+				}
+			}
+			p.ObjInvs = append(p.ObjInvs, oi)
+			cur, curPred = nil, nil
 			continue
 		}
 		if head == "writers" {
